@@ -428,3 +428,249 @@ def r_cofactorsign(idx, rep, rule="R-COFACTORSIGN"):
         rep.check(bad is None, rule, "%s|cofactor comparisons are `> c` / `<= c`" % m.key, "%s:%d" % (m.module.relpath, (bad.lineno if bad else m.node.lineno)),
                   "`%s` treats a cofactor that is exactly on the threshold differently from every other region predicate (which use `d > c` / `not d > c`): for exactly "
                   "degenerate simplices no region accepts, the fast path raises and GJK stops early on a non-optimal simplex" % (u(bad) if bad else ""), "%d comparisons" % n)
+
+
+# ---------------------------------------------------------------------------------------------------------------------------------
+# R-JOHNSONREC: the cofactor recursion of Johnson's sub-algorithm.
+#
+#   Delta_j(X u {j}) = sum over i in X of  Delta_i(X) * (y_i . y_k  -  y_i . y_j)        (k any fixed element of X)
+#
+# d[v, c] holds Delta_v(S(c)), S(c) = the bits of c + 1 (vertex v alone is column 2^v - 1: checked against __init__).  Every store into d is
+# resolved to this form: each product pairs d[i, col(X)] with a factor that RESOLVES (through local definitions, negations, parameters bound at
+# every call site, tuple results of the other coordinate methods) to y_i . (y_k - y_j) with the store's own j, the term's own i and one common k.
+
+def _table_entry(n, simplex_names):
+    """<simplex>.dot_product_table[a, b] -> frozenset({a, b})"""
+    if isinstance(n, ast.Subscript) and isinstance(n.value, ast.Attribute) and n.value.attr == "dot_product_table":
+        el = index_elts(n)
+        if len(el) == 2 and isinstance(const(el[0]), int) and isinstance(const(el[1]), int):
+            return (const(el[0]), const(el[1]))
+    return None
+
+
+class _JohnsonSem:
+    """meaning of a factor: ('e', i, k, j) = y_i . (y_k - y_j)   |   None"""
+
+    def __init__(self, idx, ci):
+        self.idx, self.ci = idx, ci
+        self.ret_memo = {}
+        self.param_memo = {}
+        self.problems = []
+        self.all_funcs = [f for f in idx.module(O).functions.values()]
+
+    def diff(self, e):
+        if isinstance(e, ast.BinOp) and isinstance(e.op, ast.Sub):
+            a, b = _table_entry(e.left, None), _table_entry(e.right, None)
+            if a is None or b is None:
+                return None
+            A, B = set(a), set(b)
+            common = A & B
+            if len(common) != 1:
+                return None
+            i = next(iter(common))
+            k = i if len(A) == 1 else next(iter(A - {i}))
+            j = i if len(B) == 1 else next(iter(B - {i}))
+            return ("e", i, k, j)
+        return None
+
+    def neg(self, t):
+        return None if t is None else ("e", t[1], t[3], t[2])
+
+    def local_defs(self, f):
+        out = {}
+        for st in iter_stmts(f.node.body):
+            if isinstance(st, ast.Assign):
+                for t in st.targets:
+                    if isinstance(t, ast.Name):
+                        out.setdefault(t.id, []).append(st.value)
+                    elif isinstance(t, ast.Tuple) and all(isinstance(x, ast.Name) for x in t.elts):
+                        for pos, x in enumerate(t.elts):
+                            out.setdefault(x.id, []).append((st.value, pos))
+        return out
+
+    def returns_of(self, f):
+        """tuple of meanings returned by a coordinate method"""
+        if f.key in self.ret_memo:
+            return self.ret_memo[f.key]
+        self.ret_memo[f.key] = None
+        rets = [st for st in iter_stmts(f.node.body) if isinstance(st, ast.Return) and st.value is not None]
+        out = None
+        if len(rets) == 1:
+            elts = rets[0].value.elts if isinstance(rets[0].value, ast.Tuple) else [rets[0].value]
+            out = tuple(self.meaning(x, f) for x in elts)
+        self.ret_memo[f.key] = out
+        return out
+
+    def param_meaning(self, f, pname):
+        key = (f.key, pname)
+        if key in self.param_memo:
+            return self.param_memo[key]
+        self.param_memo[key] = None
+        pos = f.params().index(pname) - (1 if f.params() and f.params()[0] == "self" else 0)
+        vals = set()
+        n_sites = 0
+        for g in self.all_funcs:
+            for c in ast.walk(g.node):
+                if isinstance(c, ast.Call) and isinstance(c.func, ast.Attribute) and c.func.attr == f.name and pos < len(c.args):
+                    n_sites += 1
+                    vals.add(self.meaning(c.args[pos], g))
+        out = next(iter(vals)) if len(vals) == 1 and n_sites else None
+        if len(vals) > 1:
+            self.problems.append("%s: parameter %s receives different quantities at its call sites: %s" % (f.key, pname, sorted(map(str, vals))))
+        self.param_memo[key] = out
+        return out
+
+    def meaning(self, e, f, depth=0):
+        if depth > 6:
+            return None
+        if isinstance(e, ast.UnaryOp) and isinstance(e.op, ast.USub):
+            return self.neg(self.meaning(e.operand, f, depth + 1))
+        d_ = self.diff(e)
+        if d_ is not None:
+            return d_
+        a = _d_access(e)
+        if a is not None and isinstance(a[0], int):
+            S = _subset(a[1])
+            if len(S) == 2 and a[0] in S:
+                j = a[0]
+                i = next(iter(S - {j}))
+                return ("e", i, i, j)          # Delta_j({i, j}) = y_i . (y_i - y_j)
+            return None
+        if isinstance(e, ast.Name):
+            if e.id in f.params():
+                return self.param_meaning(f, e.id)
+            defs = self.local_defs(f).get(e.id, [])
+            vals = set()
+            for dv in defs:
+                if isinstance(dv, tuple):
+                    call, pos = dv
+                    callee = self._callee(call)
+                    r = self.returns_of(callee) if callee is not None else None
+                    vals.add(r[pos] if r is not None and pos < len(r) else None)
+                elif isinstance(dv, ast.Call):
+                    callee = self._callee(dv)
+                    r = self.returns_of(callee) if callee is not None else None
+                    vals.add(r[0] if r is not None and len(r) == 1 else None)
+                else:
+                    vals.add(self.meaning(dv, f, depth + 1))
+            return next(iter(vals)) if len(vals) == 1 else None
+        return None
+
+    def _callee(self, call):
+        if isinstance(call, ast.Call) and isinstance(call.func, ast.Attribute) and call.func.attr in self.ci.methods:
+            return self.ci.methods[call.func.attr]
+        return None
+
+
+_LAYOUT = {}
+
+
+def _load_layout(idx):
+    """column -> vertex set: single vertices from __init__ (d[v, c] = 1.0), larger sets from the class's own documentation table
+    (`* 11: face 0-1-3`), cross-checked against the rows that are ever stored into each column"""
+    import re as _re
+    ci = idx.cls(O + "::BarycentricCoordinates")
+    lay = {}
+    init = ci.methods.get("__init__")
+    for st in iter_stmts(init.node.body):
+        if isinstance(st, ast.Assign):
+            a = _d_access(st.targets[0])
+            if a and isinstance(a[0], int) and const(st.value) in (1, 1.0):
+                lay[a[1]] = {a[0]}
+    doc = ast.get_docstring(ci.node) or ""
+    for m in _re.finditer(r"\*\s*(\d+):\s*(?:line segment|face|tetrahedron)\s+([0-9](?:-[0-9])+)", doc):
+        lay[int(m.group(1))] = {int(x) for x in m.group(2).split("-")}
+    _, stored = column_subsets(idx)
+    if len(lay) != 15 or sorted(map(len, lay.values())) != [1] * 4 + [2] * 6 + [3] * 4 + [4]:
+        raise AnalysisError("BarycentricCoordinates: column layout not recovered from __init__ + class documentation (%s)" % lay)
+    _LAYOUT.clear()
+    _LAYOUT.update({c: frozenset(v) for c, v in lay.items()})
+    return stored
+
+
+def _subset(col):
+    return set(_LAYOUT.get(col, ()))
+
+
+def _col_of(S):
+    for c, v in _LAYOUT.items():
+        if v == frozenset(S):
+            return c
+    return None
+
+
+def r_johnsonrec(idx, rep, rule="R-JOHNSONREC"):
+    rep.rule(rule, "every cofactor stored into BarycentricCoordinates.d follows Johnson's recursion Delta_j(X+j) = sum_{i in X} Delta_i(X) * y_i.(y_k - y_j): "
+                   "each product pairs d[i, col(X)] with a factor that resolves (local definitions, negation, parameters bound at every call site, results "
+                   "of the other coordinate methods) to y_i.(y_k - y_j) for the store's j, the term's i and one common k in X", floor=30)
+    ci = idx.cls(O + "::BarycentricCoordinates")
+    _load_layout(idx)
+    sem = _JohnsonSem(idx, ci)
+
+    def terms(e):
+        if isinstance(e, ast.BinOp) and isinstance(e.op, ast.Add):
+            return terms(e.left) + terms(e.right)
+        return [e]
+    seen = set()
+    for mname, m in sorted(ci.methods.items()):
+        if mname == "__init__":
+            continue
+        for st in iter_stmts(m.node.body):
+            if not (isinstance(st, ast.Assign) and len(st.targets) == 1):
+                continue
+            a = _d_access(st.targets[0])
+            if a is None or not isinstance(a[0], int):
+                continue
+            j, c = a
+            S = _subset(c)
+            where = "%s:%d" % (m.module.relpath, st.lineno)
+            key = "%s|d[%d, %d] = Delta_%d(%s)" % (m.key, j, c, j, sorted(S))
+            if key in seen:
+                key += " #%d" % st.lineno
+            seen.add(key)
+            if j not in S or len(S) < 2:
+                rep.bad(rule, key, where, "`%s` stores a cofactor of vertex %d in column %d, which belongs to the vertex set %s" % (u(st)[:70], j, c, sorted(S)))
+                continue
+            X = S - {j}
+            if len(S) == 2:
+                t = sem.diff(st.value)
+                i = next(iter(X))
+                rep.check(t == ("e", i, i, j), rule, key, where,
+                          "`%s`: Delta_%d({%d, %d}) must be y_%d.y_%d - y_%d.y_%d (dot_product_table[%d, %d] - dot_product_table[%d, %d]); found %s"
+                          % (u(st)[:90], j, i, j, i, i, i, j, i, i, max(i, j), min(i, j), "y_%d.(y_%d - y_%d)" % t[1:] if t else "an expression that is not a difference of two table entries sharing one vertex"),
+                          "y_%d.(y_%d - y_%d)" % (i, i, j))
+                continue
+            want_col = _col_of(X)
+            used_i, ks, why = [], set(), None
+            for tm in terms(st.value):
+                if not (isinstance(tm, ast.BinOp) and isinstance(tm.op, ast.Mult)):
+                    why = "term `%s` is not a product" % u(tm)[:50]
+                    break
+                fac = None
+                for x, y in ((tm.left, tm.right), (tm.right, tm.left)):
+                    ax = _d_access(x)
+                    if ax is not None and isinstance(ax[0], int) and ax[1] == want_col and ax[0] in X:
+                        fac = (ax[0], y)
+                        break
+                if fac is None:
+                    why = "term `%s` has no factor d[i, %d] with i in %s (the cofactors of the smaller set %s live in column %d)" % (u(tm)[:50], want_col, sorted(X), sorted(X), want_col)
+                    break
+                i, other = fac
+                t = sem.meaning(other, m)
+                if t is None:
+                    why = "factor `%s` of term `%s` does not resolve to a difference y_i.(y_k - y_j) of table entries" % (u(other)[:40], u(tm)[:50])
+                    break
+                if t[1] != i or t[3] != j or t[2] not in X:
+                    why = "term `%s`: the factor `%s` is y_%d.(y_%d - y_%d) but the term needs y_%d.(y_k - y_%d) with k in %s" % (u(tm)[:50], u(other)[:30], t[1], t[2], t[3], i, j, sorted(X))
+                    break
+                used_i.append(i)
+                ks.add(t[2])
+            if why is None and sorted(used_i) != sorted(X):
+                why = "the sum runs over i = %s, it must run over every vertex of %s exactly once" % (sorted(used_i), sorted(X))
+            if why is None and len(ks) != 1:
+                why = "the terms use different reference vertices k = %s (one fixed k for the whole sum)" % sorted(ks)
+            rep.check(why is None, rule, key, where,
+                      "`%s` is not Johnson's recursion for Delta_%d(%s): %s — the barycentric weights of this sub-simplex (and every larger one built on it) are wrong, "
+                      "so the solver can accept a sub-simplex that does not contain the minimum-norm point" % (u(st)[:100], j, sorted(S), why), "sum over %s, k = %s" % (sorted(X), sorted(ks)))
+    for pr in sem.problems:
+        rep.bad(rule, "distance3d.gjk._gjk_original::BarycentricCoordinates|" + pr[:120], ci.methods["__init__"].where, pr)
